@@ -7,7 +7,8 @@ def digest(keyhex):
 
 class MapOracle:
     """C01: every call answers like an in-memory map (keys identified by their digest)."""
-    def __init__(self, imm):
+    def __init__(self, imm, aspects=("map",)):
+        self.aspects = aspects
         self.m = {}
         self.imm = imm
         self.durable = {}          # map at the last completed flush / close
@@ -61,22 +62,34 @@ class MapOracle:
         if op == "iter":
             if rec["res"] != "ROk":
                 return "NewIterator failed"
-            got = sorted((digest(k), bytes.fromhex(v)) for k, v in (rec.get("extra") or []))
+            got = sorted((digest(k), bytes.fromhex(v)) for k, v in ((rec.get("extra") or {}).get("items") or []))
             want = sorted(self.m.items())
             return None if got == want else "iteration yielded %d bindings, map holds %d (or contents differ)" % (len(got), len(want))
         if op == "flush":
             if rec["res"] != "ROk":
                 return "Flush failed"
-            ex = rec.get("extra")
+            ex = rec.get("extra") or {}
             bad = None
-            if ex and "gets" in ex:
+            if "gets" in ex and "crash" in self.aspects:
                 bad = self.crash_ok(ex["gets"], "crash inside this flush after %d of %d index records" % (ex["crash_keep"], ex["crash_of"]))
             self.durable = dict(self.m); self.since = {}
             return bad
-        if op in ("reopen", "rebits", "close"):
+        if op in ("reopen", "rebits", "close", "missize"):
             if rec["res"] != "ROk":
                 return "%s failed" % op
             self.durable = dict(self.m); self.since = {}
+            ex = rec.get("extra") or {}
+            if ex.get("paths_agree") is False and "paths" in self.aspects:
+                return "snapshot path and rescan path disagree after Close: %s" % ex.get("paths_detail")
+            if "second_close_err" in ex and "paths" in self.aspects:
+                return "second Close returned an error: %s" % ex["second_close_err"]
+            if op == "missize" and "sizes" in self.aspects:
+                if not ex.get("index_size_refused"):
+                    return "open with another index file size was not refused with ErrIndexWrongFileSize (%s)" % ex.get("index_size_err")
+                if not ex.get("both_refused"):
+                    return "open with another bit size AND another index file size was not refused (%s)" % ex.get("both_err")
+                if not ex.get("primary_size_refused"):
+                    return "open with another primary file size was not refused with ErrPrimaryWrongFileSize (%s)" % ex.get("primary_size_err")
             return None
         if op in ("igc", "pgc"):
             return None if rec["res"] == "ROk" else None   # an error return of a GC cycle is not a contents change
@@ -92,3 +105,64 @@ class MapOracle:
             if got not in allowed:
                 return "%s: Get(%s) = %s, allowed %s" % (what, g["key"], got, allowed)
         return None
+
+
+def dir_invariants(d, quiescent=False):
+    """Consistency of the real files at a checkpoint (after Flush / GC). Returns a description or None.
+    quiescent: all pools are empty (right after a completed Flush with no concurrent writer)."""
+    free = d["free_file"] + d["free_gc"]
+    if len(set(free)) != len(free):
+        dup = sorted(x for x in set(free) if free.count(x) > 1)
+        return "C13: freelist names a location twice: %s" % dup[:3]
+    cur = set(d["current"])
+    both = cur & set(free)
+    if both:
+        return "C13: a current location is on the freelist: %s" % sorted(both)[:3]
+    busy = set(x for f in d["busy"].values() for x in f)
+    dead = set(x for f in d["dead"].values() for x in f)
+    if cur & dead:
+        return "C07: a current location is marked deleted in the primary: %s" % sorted(cur & dead)[:3]
+    for f in d["idx_ref"]:
+        if "i.%d" % f not in d["files"]:
+            return "C07: the bucket table points into index file %d which does not exist" % f
+    if quiescent:
+        lost = busy - cur - set(free)
+        if lost:
+            return "C13: a superseded location is neither on the freelist nor handed to GC (it will never be freed): %s" % sorted(lost)[:3]
+        for c in cur:
+            if c not in busy:
+                return "C07: the index names location %s which is not the start of a complete live primary record" % c
+    return None
+
+
+def c11_drain(text, recs):
+    """After everything was removed and flushed and three primary + three index cycles ran: every non-current primary
+    file is empty or unlinked, every unreferenced non-current index file is empty or unlinked, storage never grew
+    during the cycles, and the cycles after the '#fixedpoint' mark change no file."""
+    nfix = 3
+    gcs = [r for r in recs if r["i"] >= 0 and r["op"] in ("pgc", "igc") and (r.get("extra") or {}).get("dir")]
+    if len(gcs) < 9:
+        return None
+    drain = gcs[-9:]
+    pre, fix = drain[:6], drain[6:]
+    last = pre[-1]["extra"]["dir"]
+    files = last["files"]
+    dnums = sorted(int(n[2:]) for n in files if n.startswith("d.") and n[2:].isdigit())
+    inums = sorted(int(n[2:]) for n in files if n.startswith("i.") and n[2:].isdigit())
+    for n in dnums[:-1]:
+        if files["d.%d" % n] != 0:
+            return (pre[-1]["i"], "C11: non-current primary file d.%d still holds %d bytes after all its keys were removed, flushed, and 3 GC cycles ran" % (n, files["d.%d" % n]))
+    for n in inums[:-1]:
+        if n not in last["idx_ref"] and files["i.%d" % n] != 0:
+            return (pre[-1]["i"], "C11: unreferenced non-current index file i.%d still holds %d bytes after 3 index GC cycles" % (n, files["i.%d" % n]))
+    prev = None
+    for r in drain:
+        st = r["extra"]["dir"]["storage"]
+        if prev is not None and st > prev:
+            return (r["i"], "C11: reported storage grew from %d to %d during a GC cycle that relocated nothing" % (prev, st))
+        prev = st
+    base = last["files"]
+    for r in fix:
+        if r["extra"]["dir"]["files"] != base:
+            return (r["i"], "C11: a GC cycle on an unchanged, fully collected store still changed files: %s -> %s" % (base, r["extra"]["dir"]["files"]))
+    return None
